@@ -11,7 +11,7 @@ pub fn gen() -> XferGen {
 }
 
 pub fn case(x: &Xfer) -> CaseOut {
-    let r = run_xfer(x, 30_000_000, false);
+    let r = run_xfer(x, 30_000_000, true);
     if r.world.hit_step_limit {
         return CaseOut::inconclusive("step limit");
     }
@@ -35,8 +35,16 @@ pub fn case(x: &Xfer) -> CaseOut {
     let mut dup_on_link = false;
     let mut wire_dgrams = 0u64;
     for rec in &w.trace {
-        if let Rec::Tx { conn, dgrams, .. } = rec {
+        if let Rec::Tx { conn, dgrams, before, .. } = rec {
             for d in dgrams {
+                // "never oversized": a UDP datagram that carries a DATAGRAM frame fits the path MTU
+                // estimate the connection held immediately before the call
+                if let Some(b) = before {
+                    let carries = d.pkts.iter().any(|p| p.has(|f| matches!(f, OF::Datagram { .. })));
+                    if carries && d.size > b.mtu as usize {
+                        return CaseOut::fail("c16/oversized-on-wire", format!("conn {conn}: a {}-byte UDP datagram carrying a DATAGRAM frame was emitted while the path MTU estimate was {}", d.size, b.mtu));
+                    }
+                }
                 let mut has = false;
                 for p in &d.pkts {
                     for f in p.frames.iter().flatten() {
